@@ -172,20 +172,30 @@ static J gen_polygon(Chooser &ch)
 {
   J c = J::obj();
   const int L = static_cast<int>(ch.range(3, 8)); // lattice 0..L
-  const bool star = ch.chance(75);
-  // general (non star-shaped) polygons are kept only if simple: small k keeps the rejection rate low
-  const int k = static_cast<int>(star ? ch.range(3, 9) : ch.range(3, 4));
   std::vector<IP> v;
-  for (int i = 0; i < k; ++i) v.push_back({ch.range(0, L), ch.range(0, L)});
-  if (star)
+  // construction with bounded retry inside the generator (keeps the discard rate of the property near zero)
+  for (int attempt = 0; attempt < 40; ++attempt)
     {
-      // angular sort around an interior lattice/half-lattice point => star-shaped (possibly concave) simple polygon
-      const double cx = static_cast<double>(ch.range(0, 2 * L)) * 0.5 + 0.25, cy = static_cast<double>(ch.range(0, 2 * L)) * 0.5 + 0.25;
-      std::sort(v.begin(), v.end(), [&](IP a, IP b) {
-        const double aa = std::atan2(static_cast<double>(a.y) - cy, static_cast<double>(a.x) - cx), ab = std::atan2(static_cast<double>(b.y) - cy, static_cast<double>(b.x) - cx);
-        if (aa != ab) return aa < ab;
-        return (a.x - cx) * (a.x - cx) + (a.y - cy) * (a.y - cy) < (b.x - cx) * (b.x - cx) + (b.y - cy) * (b.y - cy);
-      });
+      const bool star = ch.chance(75);
+      // general (non star-shaped) polygons are kept only if simple: small k keeps the rejection rate low
+      const int k = static_cast<int>(star ? ch.range(3, 9) : ch.range(3, 4));
+      v.clear();
+      for (int i = 0; i < k; ++i) v.push_back({ch.range(0, L), ch.range(0, L)});
+      if (star)
+        {
+          // angular sort around an interior quarter-lattice point => star-shaped (possibly concave) polygon
+          const double cx = static_cast<double>(ch.range(0, 2 * L)) * 0.5 + 0.25, cy = static_cast<double>(ch.range(0, 2 * L)) * 0.5 + 0.25;
+          std::sort(v.begin(), v.end(), [&](IP a, IP b) {
+            const double aa = std::atan2(static_cast<double>(a.y) - cy, static_cast<double>(a.x) - cx), ab = std::atan2(static_cast<double>(b.y) - cy, static_cast<double>(b.x) - cx);
+            if (aa != ab) return aa < ab;
+            return (a.x - cx) * (a.x - cx) + (a.y - cy) * (a.y - cy) < (b.x - cx) * (b.x - cx) + (b.y - cy) * (b.y - cy);
+          });
+          v.erase(std::unique(v.begin(), v.end(), [](IP a, IP b) { return a.x == b.x && a.y == b.y; }), v.end());
+        }
+      std::vector<IP> dbl;
+      for (auto &p : v) dbl.push_back({2 * p.x, 2 * p.y});
+      if (simple_polygon(dbl)) break;
+      v = {{0, 0}, {L, 0}, {0, L}};
     }
   if (ch.flip()) std::reverse(v.begin(), v.end());
   const size_t rot = ch.index(v.size());
@@ -507,7 +517,7 @@ int main(int argc, char **argv)
   return run_main("C19", argc, argv,
   {
     {"kdtree", "random/lattice/clustered node sets (1..300) x queries; non-trivial: >=3 nodes; oracle: brute-force minimum distance (any minimiser)", 3000, gen_kdtree, check_kdtree},
-    {"polygon_lattice", "simple lattice polygons (star-shaped by construction or rejection-filtered general, 3..9 vertices, both orientations) x all lattice and half-lattice points of the enlarged box; exact integer oracle, boundary included; non-trivial: polygon is simple", 4000, gen_polygon, check_polygon},
+    {"polygon_lattice", "simple lattice polygons (star-shaped by construction or rejection-filtered general, 3..9 vertices, both orientations) x all lattice and half-lattice points of the enlarged box; exact integer oracle, boundary included; non-trivial: polygon is simple", 1500, gen_polygon, check_polygon},
     {"polygon_exhaustive", "complete enumeration of all simple k-gons on an n x n lattice x all lattice/half-lattice points (one case = one full enumeration)", 1, gen_polygon_exhaustive, check_polygon_exhaustive, 100, false},
     {"bezier_cartesian", "polylines 2..7 points, bends <=60deg, queries within 300 km with interior foot; oracle: 4000-sample/segment dense sampling; non-trivial: interior foot", 600, [](Chooser &ch) { return gen_bezier(ch, false); }, check_bezier},
     {"bezier_spherical", "same in lon/lat radians with great-circle (haversine) metric", 600, [](Chooser &ch) { return gen_bezier(ch, true); }, check_bezier},
